@@ -479,4 +479,35 @@ b("c15-cyknode-right-first", "C15", CYKF,
   "        if right_son is not None:\n            self.sons.append(right_son)\n        if left_son is not None:\n            self.sons.append(left_son)",
   "children-left-then-right")
 
+# ----------------------------------------------------------------------------- C16
+FSTF = "pyformlang/fst/fst.py"
+b("c16-star-no-loop-back", "C16", FSTF,
+  "        for final_state in self.final_states:\n            for start_state in self.start_states:\n                fst_star.add_transition(\n                    state_renaming.get_name(final_state, 0),\n                    \"epsilon\",\n                    state_renaming.get_name(start_state, 0),\n                    []\n                )\n        for final_state in self.start_states:",
+  "        for final_state in self.start_states:", "star-loop-back-edge")
+b("c16-concat-keeps-left-finals", "C16", FSTF,
+  "        self._add_start_states_to(fst_concatenate, state_renaming, 0)\n",
+  "        self._add_extremity_states_to(fst_concatenate, state_renaming, 0)\n", "concat-final-only-right")
+b("c16-concat-bridge-outputs", "C16", FSTF,
+  "                    state_renaming.get_name(start_state, 1),\n                    []\n                )\n        return fst_concatenate",
+  "                    state_renaming.get_name(start_state, 1),\n                    [\"epsilon\"]\n                )\n        return fst_concatenate",
+  "concat-bridge")
+b("c16-union-no-other-edges", "C16", FSTF,
+  "        other_fst._copy_into(union_fst, state_renaming, 1)", "        other_fst._add_extremity_states_to(union_fst, state_renaming, 1)",
+  "union-edges-of-both")
+b("c16-translate-yield-nonfinal", "C16", FSTF,
+  "            if len(remaining) == 0 and current_state in self._final_states:", "            if len(remaining) == 0:",
+  "yield-iff-consumed-and-final")
+b("c16-translate-no-mark", "C16", FSTF,
+  "            if (remaining, generated) in seen_by_state[current_state]:\n                continue\n            seen_by_state[current_state].append((remaining, generated))\n",
+  "", "mark-at-pop")
+b("c16-translate-no-eps-moves", "C16", FSTF,
+  "                for next_state, output_string in self._delta.get(\n                        (current_state, \"epsilon\"), []):\n                    to_process.append((remaining,\n                                       generated + output_string,\n                                       next_state))",
+  "                pass", "epsilon-move")
+b("c16-tofst-swapped-endpoints", "C16", FA + "finite_automaton.py",
+  "            fst.add_transition(s_from.value,\n                               symb_by.value,\n                               s_to.value,",
+  "            fst.add_transition(s_to.value,\n                               symb_by.value,\n                               s_from.value,", "to_fst-identity")
+p("c16-p-union-locals", "C16", FSTF,
+  "        self._copy_into(union_fst, state_renaming, 0)\n        # pylint: disable=protected-access\n        other_fst._copy_into(union_fst, state_renaming, 1)",
+  "        for idx, operand in enumerate((self, other_fst)):\n            operand._copy_into(union_fst, state_renaming, idx)")
+
 VARIANTS = V
